@@ -25,6 +25,7 @@ type specCtx struct {
 	shows    []showTerm
 	bound    map[string]*val
 	atBlock  *ssa.BasicBlock
+	atRet    bool // evaluation at a return site: locals resolve to the binding live there
 	ifacePkg *types.Package
 	loopHdr  *ssa.BasicBlock
 	coll     *[]instFn // collects positive universally quantified facts for term-directed instantiation
@@ -52,7 +53,7 @@ func (fc *fnCtx) specCtxAt(names map[string]*val, h heap) *specCtx {
 }
 
 func (fc *fnCtx) specCtxRet(rs retSite) *specCtx {
-	return &specCtx{fc: fc, g: fc.g, fn: fc.fn, h: rs.h, oldH: fc.entryHeap, results: rs.vals, guard: rs.reach, cells: rs.cells, acOld: fc.entryAC}
+	return &specCtx{fc: fc, g: fc.g, fn: fc.fn, h: rs.h, oldH: fc.entryHeap, results: rs.vals, guard: rs.reach, cells: rs.cells, acOld: fc.entryAC, atBlock: rs.blk, atRet: true}
 }
 
 func (sc *specCtx) boolExpr(src string) (string, error) {
@@ -99,7 +100,7 @@ func (sc *specCtx) lookup(name string) (*val, error) {
 	if v, ok := sc.args[name]; ok {
 		return v, nil
 	}
-	if sc.fc != nil && sc.atBlock != nil && sc.args == nil {
+	if sc.fc != nil && sc.atBlock != nil && sc.args == nil && !sc.atRet {
 		// loop-carried variables of the enclosing loops (innermost first)
 		var best *ssa.BasicBlock
 		var bestV *val
@@ -172,6 +173,18 @@ func (sc *specCtx) lookup(name string) (*val, error) {
 						return sc.fc.loadH(sc.h, lb.ty, lb.v.t[0], lb.v.t[1], sc.ag()), nil
 					}
 					return lb.v, nil
+				}
+			}
+			if sc.atRet {
+				// the variable is not in scope at this return (declared later or in another branch): its value there is
+				// arbitrary; the clause must guard it. An unconstrained value of its type keeps the clause evaluable.
+				last := bs[len(bs)-1]
+				ty := last.ty
+				if ty == nil && last.v != nil {
+					ty = last.v.ty
+				}
+				if ty != nil {
+					return sc.g.newVal("outofscope_"+name, ty), nil
 				}
 			}
 		}
